@@ -112,6 +112,10 @@ func (x *Exec) step(fr *Frame, st *State, ins ssa.Instruction, cont func(*Frame,
 		vv := x.operand(fr, st, in.Value)
 		x.escapeValue(st, kv)
 		x.escapeValue(st, vv)
+		// assignment to an entry of a nil map panics
+		nonNil := Neq(m, IntConstI(0))
+		x.emitSafe(fr, st, "nilmap", nonNil, in.Pos())
+		st.Assume(nonNil)
 		x.mapUpdate(st, m, mt, kv, vv)
 	case *ssa.Range:
 		xv := x.operand(fr, st, in.X)
